@@ -299,3 +299,83 @@ int main(){ const int n=3003; FftPlan plan(n); std::vector<arr_cmplx> in; std::v
   for(int t=0;t<4;++t) th.emplace_back([&,t]{ for(int r=0;r<200;++r){ arr_cmplx y=plan(in[t]); for(int i=0;i<n;++i) if(y[i].re!=ref[t][i].re||y[i].im!=ref[t][i].im){ ++bad; break; } } });
   for(auto& t: th) t.join(); if(bad){ std::printf("%d of 800 concurrent solves differ from the single-threaded result\\n", bad.load()); return 1; } return 0; }
 '''
+
+
+@adapter(r'(Pow2FftPlan::solve|PrimesFftC::(solve|_dft))')
+def plan_length(o):
+    """a plan applied to an input of another length must be rejected (C05); run through the public FftPlan"""
+    m = o['model'] or {}
+    prime = 'Primes' in o['name']
+    p = I(m, 'this.n_', 16)
+    ln = I(m, 'x.len', I(m, 'n', p + 1))
+    if prime:
+        p = p if p in (5, 7, 11, 13, 17, 19, 23, 29, 31, 37, 41) else 7
+    else:
+        p = p if (p >= 16 and p & (p - 1) == 0 and p <= 1 << 16) else 64
+    if ln == p or ln < 1 or ln > 1 << 17:
+        ln = p + 4
+    return HDR + '''
+int main(){ FftPlan plan(%d); arr_cmplx x(%d); for(int i=0;i<x.size();++i) x[i]=cmplx_t{double(i),1.0};
+  try { arr_cmplx y = plan(x); std::printf("plan of size %%d accepted %%d samples and returned %%d\\n", plan.size(), x.size(), y.size()); return 1; }
+  catch(const std::exception&) { return 0; } }
+''' % (p, ln)
+
+
+@adapter(r'_gen_coeffs_table/overflow:mul')
+def pow2_table_overflow(o):
+    """3 * n / 4 in the twiddle table generator of the radix-2 plan: signed overflow for n = 2^30 (needs ~20 GB)"""
+    return HDR + '''
+int main(){ try { FftPlan plan(1 << 30); return plan.size() == (1 << 30) ? 0 : 1; } catch(const std::bad_alloc&) { return 0; } }
+'''
+
+
+@adapter(r'LRUCache<int, int>::(get|put|exists|size|LRUCache)')
+def lru_differential(o):
+    """the real LRUCache<int,int> against a reference recency list: the state of the counterexample (keys in recency order,
+    capacity) is rebuilt with put(), the failing operation is applied, then a long pseudo-random run follows"""
+    m = o['model'] or {}
+    keys = []
+    try:
+        nodes = m.get('this.items_list_.nodes[]') or []
+        for e in (m.get('this.items_list_.order[]') or []):
+            i = int(e[0])
+            keys.append(int(nodes[i][0]) if 0 <= i < len(nodes) else i)
+    except Exception:
+        keys = []
+    keys = keys[:I(m, 'this.items_list_.order.len', len(keys))][:64]
+    cap = I(m, 'this.max_size_', 4)
+    if not (1 <= cap <= 64):
+        cap = max(1, min(len(keys), 64)) or 4
+    key = I(m, 'key', 1)
+    op = 'get' if '::get' in o['name'] else 'put'
+    return '#include <vector>\n#include <algorithm>\n' + HDR + '#include "lru-cache.h"\n' + '''
+struct Ref { size_t cap; std::vector<std::pair<int,int>> v;   // front = most recent
+  bool exists(int k) const { for (auto& e : v) if (e.first == k) return true; return false; }
+  void put(int k, int x) { v.erase(std::remove_if(v.begin(), v.end(), [&](auto& e){ return e.first == k; }), v.end());
+                           v.insert(v.begin(), {k, x}); if (v.size() > cap) v.pop_back(); }
+  int get(int k) { for (size_t i = 0; i < v.size(); ++i) if (v[i].first == k) { auto e = v[i]; v.erase(v.begin() + i); v.insert(v.begin(), e); return e.second; } throw 1; } };
+static int check(LRUCache<int,int>& c, Ref& r, const char* what) {
+  if ((size_t)c.size() != r.v.size() || r.v.size() > r.cap) { std::printf("%%s: size %%d, reference %%zu (capacity %%zu)\\n", what, c.size(), r.v.size(), r.cap); return 1; }
+  for (int k = -3; k < 80; ++k) if (c.exists(k) != r.exists(k)) { std::printf("%%s: key %%d cached=%%d, reference %%d\\n", what, k, (int)c.exists(k), (int)r.exists(k)); return 1; }
+  return 0; }
+// recency order is observable through evictions: fill with fresh keys and watch which old keys leave first
+static int order_check(LRUCache<int,int> c, Ref r, const char* what) {
+  for (int f = 1000; f < 1000 + (int)r.cap + 1; ++f) { c.put(f, f); r.put(f, f); if (check(c, r, what)) return 1; } return 0; }
+int main() {
+  const size_t cap = %d; LRUCache<int,int> c(cap); Ref r{cap, {}};
+  const int init[] = {0%s}; const int ninit = %d;
+  for (int i = ninit; i >= 1; --i) { c.put(init[i], 100 + i); r.put(init[i], 100 + i); }
+  if (check(c, r, "rebuild") || order_check(c, r, "rebuild order")) return 1;
+  try { %s } catch (...) { std::printf("unexpected exception\\n"); return 1; }
+  if (check(c, r, "failing operation") || order_check(c, r, "order after the failing operation")) return 1;
+  unsigned s = 12345;
+  for (int it = 0; it < 20000; ++it) { s = s * 1664525u + 1013904223u; int k = (s >> 16) %% (2 * (int)cap + 3); int w = (s >> 8) & 3;
+    if (w == 0) { c.put(k, it); r.put(k, it); }
+    else if (w == 1) { bool e = r.exists(k); int a = -1, b = -1; bool thrown = false; try { a = c.get(k); } catch (const std::exception&) { thrown = true; }
+                       if (e) b = r.get(k); if (thrown == e || (e && a != b)) { std::printf("get(%%d): thrown=%%d value %%d, reference cached=%%d value %%d\\n", k, thrown, a, e, b); return 1; } }
+    if (check(c, r, "random run")) return 1;
+    if ((it %% 97) == 0 && order_check(c, r, "random run order")) return 1; }
+  return 0; }
+''' % (cap, ''.join(', %d' % k for k in keys), len(keys),
+       ('{ int k = %d; if (r.exists(k)) { if (c.get(k) != r.get(k)) { std::printf("get value\\n"); return 1; } } }' % key) if op == 'get'
+       else ('c.put(%d, 7); r.put(%d, 7);' % (key, key)))
